@@ -9,7 +9,7 @@
    PARTIAL: threads, the RwLock and the sockets are outside the model (the D slice drives the same loop bodies through the
    cfg(simple_dns_verif) wrappers; a panic there is what kills the thread or poisons the lock); the tokio twins share
    build_reply, the store and the codec but their own glue is not modelled. Property theorems only. *)
-Require Import SD.Base SD.Codes SD.Header SD.Name SD.RData SD.Packet SD.RoundTrip SD.Store SD.StoreProofs SD.Pipeline SD.PipelineProofs.
+Require Import SD.Base SD.Codes SD.Header SD.Name SD.RData SD.Packet SD.RoundTrip SD.Store SD.StoreProofs SD.HistoryProofs SD.Pipeline SD.PipelineProofs SD.Reachable.
 
 Theorem C14_responder_total : forall st d now, exists h, responder_step st d now = Ok h.
 Proof. exact responder_total. Qed.
@@ -40,6 +40,13 @@ Theorem C14_build_cannot_fail : forall st d now e, store_records_wf st -> respon
   exists p r, parse_packet d = Ok p /\ build_reply st p now = Some r /\ ~ (len (rp_answers r) < 65536 /\ len (rp_additional r) < 65536).
 Proof. exact responder_never_fails_to_build. Qed.
 Print Assumptions C14_build_cannot_fail.
+
+(* the hypothesis of the two theorems above is met by every store the application can build from well-formed records, by
+   any sequence of register / receive / remove / clear operations *)
+Theorem C14_store_hypotheses_reachable : forall ops, (forall o r, In o ops -> op_record o = Some r -> wf_rr r) ->
+  store_records_wf (fold_left apply_op ops []) /\ names_short (fold_left apply_op ops []) /\ store_ok (fold_left apply_op ops []).
+Proof. exact reachable_store_wf. Qed.
+Print Assumptions C14_store_hypotheses_reachable.
 
 (* the pinned tree: the responder's header peek indexed data[2..4] of an empty datagram (finding F01); on the repaired
    model an empty datagram is skipped *)
